@@ -17,7 +17,7 @@ from harness import text as T
 from harness import textcheck as TC
 from props import _text as X
 
-PROPS = ["Octave.Props.C02"]
+PROPS = ["Octave.Props.C02", "Octave.Props.C02lists"]
 
 
 def kf_frontmatter_with_sentinel(case) -> bool:
